@@ -1,7 +1,114 @@
 (** C08 - float text I/O is lossless and base/precision changes are faithfully rounded. Statements only. *)
-From Dashu Require Import Base.Prelude Float.RoundSpec Float.RoundSpecProof Float.Contract Float.Model Float.ModelProof.
+From Dashu Require Import Base.Prelude Float.RoundSpec Float.RoundSpecProof Float.Contract Float.Model Float.ModelProof
+  Int.IoSpec Float.TextIoSpec Float.TextIoModel Float.BaseConvProof Float.TextIoProof.
+From DashuGen Require Import RoundTables.
 Open Scope Z_scope.
 
-Theorem C08_repr_round_exact : forall B p m s e, dlen B s <= p -> repr_round B p m s e = AExact s e.
-Proof. exact repr_round_exact. Qed.
-Print Assumptions C08_repr_round_exact.
+(** ** printing: Repr::fmt_round (Display) prints the specified text - integer part, point, exactly the
+    requested number of fractional digits of the value rounded by spec_round *)
+
+Theorem C08_display_asis_spec : forall B, 2 <= B -> forall m s e prec, (s = 0 -> e = 0) -> (forall p, prec = Some p -> 0 <= p) ->
+  fmt_round_body_asis B m s e prec = display_body_spec B m s e prec.
+Proof. exact fmt_round_body_asis_spec. Qed.
+Print Assumptions C08_display_asis_spec.
+
+(** ** precision changes *)
+
+Theorem C08_with_precision_asis_spec : forall B, 2 <= B -> forall p0 p m s e, 0 <= p -> (p0 = 0 \/ dlen B s <= p0) ->
+  with_precision_asis B p0 p m s e = with_precision_spec B p m s e.
+Proof. exact with_precision_asis_spec. Qed.
+Print Assumptions C08_with_precision_asis_spec.
+
+Theorem C08_with_precision_contract : forall B, 2 <= B -> forall p m s e, 1 <= p -> p < dlen B s ->
+  let k := dlen B s - p in
+  let r := spec_round m s (B ^ k) in
+  (exists s' e' j, with_precision_spec B p m s e = (s', e', FInexact (adj_flag s (B ^ k) r)) /\
+                  0 <= j /\ e' = e + k + j /\ r = s' * B ^ j) /\
+  Z.abs (r * B ^ k - s) < B ^ k /\
+  (is_half_mode m = true -> 2 * Z.abs (r * B ^ k - s) <= B ^ k) /\
+  side_ok m s (B ^ k) r /\
+  B ^ (p - 1) <= Z.abs r <= B ^ p.
+Proof. exact with_precision_spec_contract. Qed.
+Print Assumptions C08_with_precision_contract.
+
+Theorem C08_with_precision_flag_truthful : forall B, 2 <= B -> forall p m s e, 1 <= p -> s mod B <> 0 ->
+  (dlen B s <= p -> with_precision_spec B p m s e = (s, e, FExact)) /\
+  (p < dlen B s -> Z.rem s (B ^ (dlen B s - p)) <> 0).
+Proof. exact with_precision_spec_flag_truthful. Qed.
+Print Assumptions C08_with_precision_flag_truthful.
+
+(** ** base changes: the modelled routes of Context::convert_base *)
+
+Theorem C08_ilog_exact : forall n b, 2 <= b -> 1 <= ilog_exact n b -> n = b ^ ilog_exact n b.
+Proof. exact ilog_exact_spec. Qed.
+Print Assumptions C08_ilog_exact.
+
+Theorem C08_base_precision_rule : forall B NB p, 2 <= B -> 2 <= NB -> 0 <= p ->
+  let p' := base_prec_spec B NB p in 0 <= p' /\ NB ^ p' <= B ^ p < NB ^ (p' + 1).
+Proof. exact base_prec_spec_rule. Qed.
+Print Assumptions C08_base_precision_rule.
+
+Theorem C08_round_norm : forall NB, 2 <= NB -> forall p m s e, 0 <= p ->
+  round_norm NB p m s e =
+  (let '(s1, e1) := normalize NB s e in let '(s2, e2, f) := with_precision_spec NB p m s1 e1 in CDone s2 e2 f).
+Proof. exact round_norm_spec. Qed.
+Print Assumptions C08_round_norm.
+
+Theorem C08_convert_same_base : forall NB, 2 <= NB -> forall p m s e, 0 <= p ->
+  convert_base_asis NB NB p m s e =
+  (let '(s1, e1) := normalize NB s e in let '(s2, e2, f) := with_precision_spec NB p m s1 e1 in CDone s2 e2 f).
+Proof. exact convert_same_base. Qed.
+Print Assumptions C08_convert_same_base.
+
+Theorem C08_convert_power_up : forall NB B p m s e, 2 <= B -> 0 <= p -> B < NB -> 1 < ilog_exact NB B ->
+  let n := ilog_exact NB B in
+  NB = B ^ n /\ e = n * (e / n) + e mod n /\ 0 <= e mod n < n /\
+  convert_base_asis B NB p m s e = round_norm NB p m (s * B ^ (e mod n)) (e / n).
+Proof. exact convert_power_up. Qed.
+Print Assumptions C08_convert_power_up.
+
+Theorem C08_convert_power_down : forall NB, 2 <= NB -> forall B p m s e, 2 <= B -> 0 <= p -> NB < B -> 1 < ilog_exact B NB ->
+  let n := ilog_exact B NB in
+  B = NB ^ n /\ convert_base_asis B NB p m s e = round_norm NB p m s (e * n).
+Proof. exact convert_power_down. Qed.
+Print Assumptions C08_convert_power_down.
+
+Theorem C08_convert_small_pos : forall NB, 2 <= NB -> forall B p m s e, NB <> B -> ilog_exact NB B <= 1 -> ilog_exact B NB <= 1 ->
+  1 <= p -> 0 <= e <= threshold_small_exp ->
+  convert_base_asis B NB p m s e = round_norm NB p m (s * B ^ e) 0.
+Proof. exact convert_small_pos. Qed.
+Print Assumptions C08_convert_small_pos.
+
+Theorem C08_convert_unlimited_panics : forall NB B m s e, NB <> B -> ilog_exact NB B <= 1 -> ilog_exact B NB <= 1 ->
+  convert_base_asis B NB 0 m s e = CPanic UnlimitedPrecision.
+Proof. exact convert_unlimited_panics. Qed.
+Print Assumptions C08_convert_unlimited_panics.
+
+Theorem C08_div_long : forall NB, 2 <= NB -> forall p m s1 e1 s2 e2, 1 <= p -> 0 < s2 -> p < dlen NB (Z.quot s1 s2) ->
+  let shift := dlen NB (Z.quot s1 s2) - p in
+  let r := spec_round m s1 (s2 * NB ^ shift) in
+  r <> 0 /\
+  exists s' e' f j, div_long NB p m s1 e1 s2 e2 = CDone s' e' f /\
+    0 <= j /\ e' = e1 - e2 + shift + j /\ r = s' * NB ^ j /\
+    (f = FExact <-> s1 mod (s2 * NB ^ shift) = 0).
+Proof. exact div_long_spec. Qed.
+Print Assumptions C08_div_long.
+
+(** ** the defects found, as theorems about the old behaviour / the observed answers *)
+
+Theorem C08_convert_base_before_fix_refuted :
+  convert_exact_old 2 (1 * 10 ^ 30) 0 = CDone 931322574615478515625 30 FExact /\
+  check_contract 2 9 MZero (float_rat 10 1 30) 931322574615478515625 30 FExact = false /\
+  convert_base_asis 10 2 9 MZero 1 30 = CDone 403 91 (FInexact NoOp) /\
+  check_contract 2 9 MZero (float_rat 10 1 30) 403 91 (FInexact NoOp) = true.
+Proof. exact convert_base_before_fix_refuted. Qed.
+Print Assumptions C08_convert_base_before_fix_refuted.
+
+Theorem C08_convert_large_observed_refuted :
+  let x := float_rat 10 (-98) 100 in
+  let r := - 0xe006890c5e5aba3f48a41a6adc1267645e96cd1584772b07b52a0c3a5883fffffffffffffffffffffff in
+  convert_base_asis 10 2 332 MZero (-98) 100 = CLarge /\
+  check_contract 2 332 MZero x r 7 (FInexact NoOp) = false /\
+  check_contract 2 332 MZero x (r - 1) 7 FExact = true.
+Proof. exact convert_large_observed_refuted. Qed.
+Print Assumptions C08_convert_large_observed_refuted.
